@@ -225,7 +225,7 @@ pub fn run_c06(args: &Args) -> i32 {
     report.set("variants", json!(ALL_VARIANTS.iter().map(|v| v.name()).collect::<Vec<_>>()));
     report.set("distinct_step_outcomes", json!(outcomes.len()));
     report.set("exhaustive", json!(true));
-    report.set("rule", json!("every history of <= `depth` steps over the 37-step alphabet H from 6 base states, executed in lock-step on the six variants; every step result and, at the end of every history, the full observable dump (all elements, values, keys, counts, aliases, indexes, index searches, four traversals per node) must be identical. states = distinct dumps."));
+    report.set("rule", json!("every history of <= `depth` steps over the 38-step alphabet H from 6 base states, executed in lock-step on the six variants; every step result and, at the end of every history, the full observable dump (all elements, values, keys, counts, aliases, indexes, index searches, four traversals per node) must be identical. states = distinct dumps."));
     report.assume("values, keys, aliases and ids outside the alphabet are not covered; histories longer than the depth are not covered");
     report.finish()
 }
